@@ -51,9 +51,15 @@ def join(a, b):
 
 
 class HalfTagger:
-    def __init__(self, ctx, func):
+    def __init__(self, ctx, func, bindings=None, depth=2):
+        """bindings (for a helper analysed in the context of one call site):
+             {param: (AV of the argument, half named by it as a ds/scale argument or None,
+                      half named by it as an index or None)}"""
         self.ctx = ctx
         self.func = func
+        self.bindings = bindings or {}
+        self.depth = depth
+        self.sub_cache = {}
         self.flow = ctx.flow(func)
         self.memo = {}
         self.busy = set()
@@ -75,6 +81,9 @@ class HalfTagger:
             except ValueError:
                 pass
         if isinstance(e2, ast.Name) and e2.id in self.func.all_params:
+            b = self.bindings.get(e2.id)
+            if b is not None and b[1] is not None:
+                return b[1]
             return frozenset([('sym', e2.id)])
         return BOTH
 
@@ -83,6 +92,10 @@ class HalfTagger:
         e2 = self.flow.inline(e, at)
         if isinstance(e2, ast.Constant) and e2.value in (0, 1) and not isinstance(e2.value, bool):
             return frozenset([e2.value])
+        if isinstance(e2, ast.Name) and e2.id in self.func.all_params:
+            b = self.bindings.get(e2.id)
+            if b is not None and b[2] is not None:
+                return b[2]
         if isinstance(e2, ast.Call) and isinstance(e2.func, ast.Name) and e2.func.id == 'int' \
            and len(e2.args) == 1 and isinstance(e2.args[0], ast.Compare):
             c = e2.args[0]
@@ -104,7 +117,9 @@ class HalfTagger:
         first = True
         for d in self.flow.def_exprs(name, at):
             kind = d[0]
-            if kind in ('param', 'undefined', 'other'):
+            if kind == 'param' and name in self.bindings:
+                v = self.bindings[name][0]
+            elif kind in ('param', 'undefined', 'other'):
                 v = NEUTRAL
             elif kind in ('assign', 'with'):
                 v = self.eval(d[1], d[2])
@@ -262,6 +277,11 @@ class HalfTagger:
 
     def eval_call(self, e, at):
         fn = e.func
+        if isinstance(fn, ast.Name) and fn.id in self.flow.rd.names:
+            # a bound method kept in a local (psi56 = self.psi_near_field_56)
+            sd = self.flow.single_def(fn.id, at)
+            if sd is not None and isinstance(sd[0], ast.Attribute) and (dotted(sd[0]) or '').startswith('self.'):
+                fn = sd[0]
         d = dotted(fn) or ''
         name = fn.attr if isinstance(fn, ast.Attribute) else (fn.id if isinstance(fn, ast.Name) else '')
         if d.startswith('self.pulses.') and name in GEOM_CALLS and e.args:
@@ -297,6 +317,10 @@ class HalfTagger:
             return AV(t, frozenset([fam]), frozenset(['src']), None)
         if d == 'self.nf_helper':
             return AV(BOTH, frozenset(['pot', 'sign', 'dirvec', 'gnd_sgn']), frozenset(['src']), None)
+        if d.startswith('self.') and d.count('.') == 1 and self.func.cls is not None and self.depth > 0:
+            sub = self.eval_helper(e, name, at)
+            if sub is not None:
+                return sub
         # constructors of neutral arrays
         if d in ('np.zeros', 'np.ones', 'np.eye', 'np.identity', 'np.arange', 'np.diag_indices',
                  'np.triu_indices', 'len', 'range', 'np.where', 'np.unique'):
@@ -314,6 +338,56 @@ class HalfTagger:
         if d == 'np.sum' or name == 'sum':
             # summation over the half axis merges both halves only if the array was unselected
             pass
+        return out
+
+    def eval_helper(self, e, name, at):
+        """a call of another method of the class: analyse the callee in the context of this call
+        (argument values and the halves its constant / symbolic arguments name) and return the
+        abstraction of what it returns; its products / selections / potential calls count as ours"""
+        g = self.ctx.model.resolve_method(self.func.cls.name, name)
+        if g is None or g.qual == self.func.qual or getattr(g, 'is_property', False):
+            return None
+        if any(isinstance(a, ast.Starred) for a in e.args) or any(k.arg is None for k in e.keywords):
+            return None
+        params = g.bound_params()
+        bind = {}
+        pairs = list(zip(params, e.args)) + [(k.arg, k.value) for k in e.keywords if k.arg in params]
+        keyparts = []
+        for p_, a in pairs:
+            av = self.eval(a, at)
+            h = self.half_of_arg(a, at)
+            a2 = self.flow.inline(a, at)
+            if h == BOTH and not (isinstance(a2, ast.Name) and a2.id in self.func.all_params):
+                h = None
+            elif not (is_const(a2) or (isinstance(a2, ast.Name) and a2.id in self.func.all_params)):
+                h = None
+            sel = self.selector_tag(a, at)
+            bind[p_] = (AV(av.tags, av.fams, av.roles, av.famarr), h, sel)
+            keyparts.append((p_, repr(av), fmt_tags(h), fmt_tags(sel)))
+        key = (g.qual, tuple(keyparts))
+        if key in self.sub_cache:
+            return self.sub_cache[key]
+        stack = getattr(self, '_stack', ())
+        if g.qual in stack:
+            return None
+        sub = HalfTagger(self.ctx, g, bindings=bind, depth=self.depth - 1)
+        sub._stack = stack + (self.func.qual,)
+        sub.run()
+        out = None
+        for n in sub.flow.cfg.nodes:
+            st = n.stmt
+            if n.kind == 'stmt' and isinstance(st, ast.Return) and st.value is not None and n.id in sub.flow.cfg.reach:
+                v = sub.eval(st.value, n.id)
+                v = AV(v.tags, v.fams, v.roles, v.famarr)
+                out = v if out is None else join(out, v)
+        if out is None:
+            out = NEUTRAL
+        self.findings += sub.findings
+        self.products += sub.products
+        self.psi_calls += sub.psi_calls
+        self.selections += sub.selections
+        self.unknown_selections += sub.unknown_selections
+        self.sub_cache[key] = out
         return out
 
     # ------------------------------------------------------------------ driver
@@ -336,22 +410,22 @@ class HalfTagger:
         seen = set()
         fs = []
         for k, node, msg in self.findings:
-            if (k, id(node)) not in seen:
-                seen.add((k, id(node)))
+            if (k, id(node), msg) not in seen:
+                seen.add((k, id(node), msg))
                 fs.append((k, node, msg))
         self.findings = fs
         seen = set()
         ps = []
         for node, a, b, ok, fams in self.products:
-            if id(node) not in seen:
-                seen.add(id(node))
+            if (id(node), a, b) not in seen:
+                seen.add((id(node), a, b))
                 ps.append((node, a, b, ok, fams))
         self.products = ps
         seen = set()
         pc = []
         for rec in self.psi_calls:
-            if id(rec[0]) not in seen:
-                seen.add(id(rec[0]))
+            if (id(rec[0]), rec[2]) not in seen:
+                seen.add((id(rec[0]), rec[2]))
                 pc.append(rec)
         self.psi_calls = pc
         return self
